@@ -13,6 +13,14 @@ def main():
     path = os.path.join(VERIF, "checks", pid.lower() + ".py")
     sys.argv = [path] + sys.argv[2:]
     t0 = time.time()
+    if os.environ.get("ZV_EVID_ALT") or os.path.realpath(os.environ.get("ZV_REPO", "/repo")) != "/repo":
+        # runs against scratch checkouts (seeded changes, bin/coverage) share work/ and work/evidence-alt:
+        # one at a time per property, so that two of them never read each other's files
+        import fcntl
+        os.makedirs(os.path.join(VERIF, "work"), exist_ok=True)
+        global _alt_lock
+        _alt_lock = open(os.path.join(VERIF, "work", ".alt-%s.lock" % pid), "w")
+        fcntl.flock(_alt_lock, fcntl.LOCK_EX)
     try:
         spec = importlib.util.spec_from_file_location("check_" + pid, path)
         mod = importlib.util.module_from_spec(spec)
